@@ -2,12 +2,14 @@
 import backoff
 import topicname
 import layouts
+import compfacts
 
 GENERATORS = [
     ('Backoff.v', backoff.generate),
     ('TopicRegex.v', topicname.generate),
     ('Layouts.v', layouts.generate_defs),
     ('LayoutsOk.v', layouts.generate_ok),
+    ('CompFacts.v', compfacts.generate),
 ]
 
 if __name__ == '__main__':
